@@ -1,4 +1,6 @@
 import SekaiProofs.Lemmas.Basket
+import Sekai.Gen.App
+import Sekai.Model.App
 /-! # C11 — Basket tokens stay fully backed; mint, burn and swap are value-preserving
 
 Theorems about the executable model `Sekai.Basket` (lean/Sekai/Model/Basket.lean), which mirrors
@@ -1064,5 +1066,14 @@ theorem period_extension_counterexample :
 /-- pruning touches neither the baskets nor the bank: supply, reserves and recorded amounts are unchanged -/
 theorem endBlock_frame (s : St) : (endBlock s).baskets = s.baskets ∧ (endBlock s).bank = s.bank ∧ (endBlock s).now = s.now :=
   ⟨rfl, rfl, rfl⟩
+
+/-! ### Application wiring (table `Gen.App`) -/
+
+/-- the basket keeper's hooks are registered with the slashing and the multistaking keeper: a slashed staking pool is
+reported to the basket module (which disables deposits of the affected share token), as the model's `slash` op assumes -/
+theorem basket_hooks_wired :
+    Sekai.Gen.App.hooks.contains ("customSlashingKeeper", "slashingtypes.NewMultiSlashingHooks(app.BasketKeeper.Hooks())") = true ∧
+    Sekai.Gen.App.hooks.contains ("multiStakingKeeper", "multistakingtypes.NewMultiStakingHooks(app.BasketKeeper.Hooks())") = true := by
+  decide +kernel
 
 end Sekai.Props.C11
